@@ -16,6 +16,7 @@ use lightmotif::seq::{EncodedSequence, StripedSequence};
 
 mod rng;
 mod io;
+mod sweeps;
 use rng::Rng;
 
 pub static LAST_PANIC: std::sync::Mutex<String> = std::sync::Mutex::new(String::new());
@@ -256,10 +257,20 @@ fn main() {
             match pid {
                 "C02" => { if unit.is_empty() || unit.starts_with("scan_next") { run("scan_next", sweep_scan("next", tier, seed)); } }
                 "C03" => { if unit.is_empty() || unit.starts_with("scan_max") { run("scan_max", sweep_scan("max", tier, seed)); } }
+                "C01" => { let (n, f) = sweeps::sweep_c01(tier, seed); total += n; fails.extend(f); }
+                "C04" => { let (n, f) = sweeps::sweep_c04(tier, seed); total += n; fails.extend(f); }
+                "C05" => { let (n, f) = sweeps::sweep_c05(tier, seed); total += n; fails.extend(f); }
+                "C07" => { let (n, f) = sweeps::sweep_c07(tier, seed); total += n; fails.extend(f); }
+                "C08" => { let (n, f) = sweeps::sweep_c08(tier, seed); total += n; fails.extend(f); }
+                "C09" | "C10" => { let (n, f) = sweeps::sweep_c09(tier, seed); total += n; fails.extend(f.into_iter().filter(|x| (pid == "C10") == x.contains("_rc\""))); }
+                "C19" => { let (n, f) = sweeps::sweep_c19(tier, seed); total += n; fails.extend(f); }
                 "C14" => { let (n, f) = io::sweep_c14(tier, seed, unit_fmt(unit)); total += n; fails.extend(f); }
                 "C15" => { let (n, f) = io::sweep_c15(tier, seed, unit_fmt(unit)); total += n; fails.extend(f); }
                 _ => {}
             }
+            // one FAIL line per unit (the first case found)
+            let mut seen = std::collections::HashSet::new();
+            fails.retain(|f| { let u = f.split("\"unit\":\"").nth(1).and_then(|x| x.split('"').next()).unwrap_or("").to_string(); seen.insert(u) });
             for f in &fails { println!("FAIL {}", f); }
             println!("sweep {} unit={} tier={} cases={} failures={}", pid, unit, tier, total, fails.len());
             std::process::exit(if fails.is_empty() { 0 } else { 1 });
